@@ -151,6 +151,7 @@ class HarnessAbort(BaseException):
 
 
 RUN_TAPE_BUDGET = 30_000
+LAST = {}              # observations of the most recent auth_impl call (tapes handed to run_tape)
 CASE_SECONDS = 1.0
 
 
@@ -158,6 +159,7 @@ class Capture:
     """Wraps functions.run_tape to capture the (tape, stack, cache) of top-level runs."""
     def __init__(self, F):
         self.F = F; self.depth = 0; self.tops = []
+        self.datas = []          # bytes of every tape handed to run_tape, in order (first 256)
         self.orig = F.run_tape
     def __enter__(self):
         cap = self
@@ -169,6 +171,8 @@ class Capture:
             if cap.depth == 0:
                 cap.tops.append((tape, stack, cache))
             cap.calls += 1
+            if len(cap.datas) < 256:
+                cap.datas.append(bytes(tape.data))
             if cap.calls > RUN_TAPE_BUDGET or (cap.calls & 255 == 0 and _t.time() > cap.deadline):
                 cap.calls = RUN_TAPE_BUDGET + 1
                 raise HarnessAbort('run_tape budget')
@@ -279,6 +283,7 @@ def auth_impl(cfg: Cfg, cache_in: dict, scripts) -> str:
             if isinstance(e, (KeyboardInterrupt, SystemExit)):
                 raise
             verdict = 'RAISED:' + type(e).__name__
+        LAST['tapes'] = list(cap.datas)
         if cap.tops:
             _, st, ca = cap.tops[-1]
             tail = render('?', st, ca, env.log, cap.tops[-1][0].callstack_count, env.rand)
